@@ -14,5 +14,5 @@ CONSTANTS
   Slim = FALSE
   Balance = TRUE
 CONSTRAINT SizeBound
-INVARIANTS Balanced UsesBound EmitInv
+INVARIANTS Balanced UsesBound CheckAgrees EmitInv
 CHECK_DEADLOCK FALSE
